@@ -3,6 +3,7 @@ mod common;
 mod engine;
 mod gen;
 mod props;
+mod wire;
 
 use std::path::PathBuf;
 
@@ -11,7 +12,9 @@ use engine::{run_parent, run_replay, run_worker, Prop, Tier};
 macro_rules! for_props {
     ($id:expr, $p:ident => $body:expr) => {{
         for_props!(@go $id, $p, $body, [
+            props::c01::C01,
             props::c02::C02,
+            props::c05::C05,
         ])
     }};
     (@go $id:expr, $p:ident, $body:expr, [$($t:ty),* $(,)?]) => {{
